@@ -1,179 +1,150 @@
-(* C17/Proofs5.v -- the refresh debouncer: stop() returns when no refresh request races it;
-   nothing is refreshed after stop() took effect; a stuck stop() stays stuck. *)
+(* C17/Proofs5.v -- the refresh debouncer (after the repair of F-C17-1: stop() only closes quit):
+   stop() never blocks; once quit is closed the flusher returns whichever select case it takes;
+   nothing is refreshed after stop() took effect. *)
 From GocqlV Require Import Lib.Base Gen.Consts C17.Model C17.Spec C17.Proofs1 C17.Proofs2.
-
-Definition ind (p q : rsp) : Z := if rsp_eqb q p then 1 else 0.
-
-Lemma n_in_zsum p st : Z.of_nat (n_in p st) = zsum (ind p) st.
-Proof. unfold n_in. apply length_filter_zsum. intro e. reflexivity. Qed.
-
-Lemma ind_nonneg p q : 0 <= ind p q.
-Proof. unfold ind. destruct (rsp_eqb q p); lia. Qed.
-
-Lemma rsp_eqb_eq a b : rsp_eqb a b = true <-> a = b.
-Proof. destruct a, b; simpl; split; intro; congruence. Qed.
-
-Lemma n_in_zero_lookup p st t : n_in p st = 0%nat -> alookup t st <> Some p.
-Proof.
-  intros Hz Hl. apply alookup_In in Hl.
-  assert (Hs : zsum (ind p) st = 0) by (rewrite <- n_in_zsum, Hz; reflexivity).
-  pose proof (zsum_zero_all (ind p) st t p (ind_nonneg p) Hs Hl) as H. unfold ind in H.
-  assert (rsp_eqb p p = true) by now apply rsp_eqb_eq. rewrite H0 in H. discriminate.
-Qed.
-
-Lemma n_in_aset p st t q q0 : alookup t st = Some q0 ->
-  Z.of_nat (n_in p (aset t q st)) = Z.of_nat (n_in p st) - ind p q0 + ind p q.
-Proof. intro E. rewrite !n_in_zsum. apply zsum_aset. exact E. Qed.
-
-Lemma n_in_snoc p st t q : Z.of_nat (n_in p (st ++ [(t, q)])) = Z.of_nat (n_in p st) + ind p q.
-Proof. rewrite !n_in_zsum, zsum_app. simpl. lia. Qed.
-
-(* the invariant along schedules on which no request races stop *)
-Definition rinv (s : rdeb) : Prop :=
-  if r_stopped s
-  then (n_in RSSend (r_stoppers s) = 1%nat /\ n_in RSClose (r_stoppers s) = 0%nat
-        /\ (r_fl s = RSelect \/ exists w, r_fl s = RRefresh w)
-        /\ r_now s = false /\ r_timerc s = false /\ r_armed s = false /\ r_quit_closed s = false)
-       \/ (n_in RSSend (r_stoppers s) = 0%nat /\ (r_fl s = RWoke SQuit \/ r_fl s = RExited))
-  else n_in RSSend (r_stoppers s) = 0%nat /\ n_in RSClose (r_stoppers s) = 0%nat /\ r_quit_closed s = false
-       /\ r_fl s <> RExited /\ r_fl s <> RWoke SQuit.
-
-Lemma rinv_init : rinv rdeb_init.
-Proof. unfold rinv. simpl. repeat split; discriminate. Qed.
 
 Ltac inv_some H := injection H as <-.
 
-Lemma rinv_step s l s' : rinv s -> request_races_stop s l = false -> rstep s l = Some s' -> rinv s'.
+(* ---- stop() returns: its own steps are enabled in every state ---- *)
+Theorem refresh_stop_returns_lemma s t ph :
+  alookup t (r_stoppers s) = Some ph ->
+  exists ls' s', (ls' = [] \/ ls' = [RStopClose t] \/ ls' = [RStopLock t] \/ ls' = [RStopLock t; RStopClose t])
+    /\ rrun s ls' = Some s' /\ alookup t (r_stoppers s') = Some RSDone.
 Proof.
-  intros I Hg H. unfold rinv in *.
-  destruct l as [| | |src t| | |t|t|t]; cbn [rstep] in H.
-  - (* RDebounce *)
-    destruct (r_stopped s) eqn:Es; inv_some H; [now rewrite Es|]. cbn [r_stopped r_stoppers r_fl r_quit_closed]. rewrite ?Es. exact I.
-  - (* RTimerFire *)
-    destruct (r_armed s) eqn:Ea; [|discriminate]. inv_some H. cbn [r_stopped r_stoppers r_fl r_quit_closed r_now r_timerc r_armed].
-    destruct (r_stopped s); [|exact I]. destruct I as [[_ [_ [_ [_ [_ [Harm _]]]]]]|I]; [congruence|right; exact I].
-  - (* RRefreshNow *)
-    simpl in Hg. rewrite Hg in I.
-    destruct (r_bc s); inv_some H; cbn [r_stopped r_stoppers r_fl r_quit_closed]; rewrite Hg; exact I.
-  - (* RFlWake *)
-    destruct (r_fl s) eqn:Ef; try discriminate.
-    destruct src.
-    + destruct (r_now s) eqn:En; [|discriminate]. inv_some H. cbn [r_stopped r_stoppers r_fl r_quit_closed r_now r_timerc r_armed].
-      destruct (r_stopped s).
-      * destruct I as [[_ [_ [_ [Hn _]]]]|[_ [I|I]]]; congruence.
-      * destruct I as [I1 [I2 [I3 _]]]. repeat split; auto; discriminate.
-    + destruct (r_timerc s) eqn:En; [|discriminate]. inv_some H. cbn [r_stopped r_stoppers r_fl r_quit_closed r_now r_timerc r_armed].
-      destruct (r_stopped s).
-      * destruct I as [[_ [_ [_ [_ [Hn _]]]]]|[_ [I|I]]]; congruence.
-      * destruct I as [I1 [I2 [I3 _]]]. repeat split; auto; discriminate.
-    + destruct (alookup t (r_stoppers s)) as [[| | |]|] eqn:El.
-      2:{ inv_some H. cbn [r_stopped r_stoppers r_fl r_quit_closed r_now r_timerc r_armed].
-          destruct (r_stopped s).
-          - destruct I as [[I1 [I2 _]]|[I1 _]].
-            + right. split; [|now left].
-              pose proof (n_in_aset RSSend _ t RSClose RSSend El) as Hn. unfold ind in Hn. simpl in Hn. lia.
-            + exfalso. eapply n_in_zero_lookup; eauto.
-          - destruct I as [I1 _]. exfalso. eapply n_in_zero_lookup; eauto. }
-      all: destruct (r_quit_closed s) eqn:Eq; [|discriminate]; inv_some H; unfold set_rfl; cbn [r_stopped r_stoppers r_fl r_quit_closed];
-        destruct (r_stopped s); [destruct I as [[_ [_ [_ [_ [_ [_ Hq]]]]]]|[I1 [I|I]]]; try congruence | destruct I as [_ [_ [Hq _]]]; congruence].
-  - (* RFlLock *)
-    destruct (r_fl s) as [|src|w|] eqn:Ef; try discriminate.
-    destruct (r_stopped s) eqn:Es; inv_some H; cbn [r_stopped r_stoppers r_fl r_quit_closed r_now r_timerc r_armed].
-    + destruct I as [[_ [_ [[I|[w I]] _]]]|[I1 _]]; try congruence. right. split; [assumption|now right].
-    + destruct I as [I1 [I2 [I3 _]]]. repeat split; auto; discriminate.
-  - (* RFlDone *)
-    destruct (r_fl s) as [|src|w|] eqn:Ef; try discriminate. inv_some H. cbn [r_stopped r_stoppers r_fl r_quit_closed r_now r_timerc r_armed].
-    destruct (r_stopped s).
-    + destruct I as [[I1 [I2 [_ I3]]]|[_ [I|I]]]; try congruence. left; repeat split; first [tauto | now left].
-    + destruct I as [I1 [I2 [I3 _]]]. repeat split; auto; discriminate.
-  - (* RStopCall *)
-    destruct (memb t (akeys (r_stoppers s))); [discriminate|]. inv_some H. unfold set_rstoppers. cbn [r_stopped r_stoppers r_fl r_quit_closed r_now r_timerc r_armed].
-    assert (H1 : n_in RSSend (r_stoppers s ++ [(t, RS0)]) = n_in RSSend (r_stoppers s)).
-    { pose proof (n_in_snoc RSSend (r_stoppers s) t RS0) as Hn. unfold ind in Hn. simpl in Hn. lia. }
-    assert (H2 : n_in RSClose (r_stoppers s ++ [(t, RS0)]) = n_in RSClose (r_stoppers s)).
-    { pose proof (n_in_snoc RSClose (r_stoppers s) t RS0) as Hn. unfold ind in Hn. simpl in Hn. lia. }
-    rewrite H1, H2. exact I.
-  - (* RStopLock *)
-    destruct (alookup t (r_stoppers s)) as [[| | |]|] eqn:El; try discriminate.
-    pose proof (n_in_aset RSSend _ t RSDone RS0 El) as Hd1. pose proof (n_in_aset RSClose _ t RSDone RS0 El) as Hd2.
-    pose proof (n_in_aset RSSend _ t RSSend RS0 El) as Hs1. pose proof (n_in_aset RSClose _ t RSSend RS0 El) as Hs2.
-    unfold ind in *. simpl in Hd1, Hd2, Hs1, Hs2.
+  intro El. destruct ph.
+  - destruct (r_stopped s) eqn:Es.
+    + exists [RStopLock t]. cbn [rrun rstep]. rewrite El, Es. eexists. split; [tauto|]. split; [reflexivity|].
+      unfold set_rstoppers. cbn [r_stoppers]. eapply alookup_aset_same; eauto.
+    + exists [RStopLock t; RStopClose t]. cbn [rrun rstep]. rewrite El, Es. cbn [r_stoppers].
+      rewrite (alookup_aset_same t RSClose RS0 _ El). eexists. split; [tauto|]. split; [reflexivity|].
+      cbn [r_stoppers]. apply (alookup_aset_same t RSDone RSClose). eapply alookup_aset_same; eauto.
+  - exists [RStopClose t]. cbn [rrun rstep]. rewrite El. eexists. split; [tauto|]. split; [reflexivity|].
+    cbn [r_stoppers]. eapply alookup_aset_same; eauto.
+  - exists []. eexists. split; [tauto|]. split; [reflexivity|assumption].
+Qed.
+
+(* ---- a stop() call about to close quit has set stopped ---- *)
+Definition cinv (s : rdeb) : Prop := forall t, alookup t (r_stoppers s) = Some RSClose -> r_stopped s = true.
+
+Lemma alookup_aset_inv {A} k (v : A) l k2 v2 : alookup k2 (aset k v l) = Some v2 -> (k2 = k /\ v2 = v) \/ alookup k2 l = Some v2.
+Proof.
+  induction l as [|[k' v'] r IH]; simpl; [discriminate|].
+  destruct (Nat.eqb_spec k' k) as [->|Hne]; simpl.
+  - destruct (Nat.eqb_spec k k2) as [->|Hne2]; intro H; [left; split; congruence|now right].
+  - destruct (Nat.eqb_spec k' k2); [now right|exact IH].
+Qed.
+
+Lemma alookup_app_inv {A} k (l1 l2 : list (nat * A)) v : alookup k (l1 ++ l2) = Some v -> alookup k l1 = Some v \/ alookup k l2 = Some v.
+Proof.
+  induction l1 as [|[k' v'] r IH]; simpl; [now right|].
+  destruct (Nat.eqb k' k); [now left|exact IH].
+Qed.
+
+Lemma cinv_step s l s' : cinv s -> rstep s l = Some s' -> cinv s'.
+Proof.
+  intros I H. unfold cinv in *. destruct l as [| | |src| | |t|t|t]; cbn [rstep] in H.
+  - destruct (r_stopped s) eqn:Es; inv_some H; cbn [r_stopped r_stoppers]; rewrite ?Es; auto.
+  - destruct (r_armed s); [|discriminate]. inv_some H; cbn [r_stopped r_stoppers]; auto.
+  - destruct (r_bc s); inv_some H; cbn [r_stopped r_stoppers]; auto.
+  - destruct (r_fl s); try discriminate. destruct src.
+    + destruct (r_now s); [|discriminate]. inv_some H; cbn [r_stopped r_stoppers]; auto.
+    + destruct (r_timerc s); [|discriminate]. inv_some H; cbn [r_stopped r_stoppers]; auto.
+    + destruct (r_quit_closed s); [|discriminate]. inv_some H. unfold set_rfl; cbn [r_stopped r_stoppers]; auto.
+  - destruct (r_fl s); try discriminate. destruct (r_stopped s) eqn:Es; inv_some H; cbn [r_stopped r_stoppers]; auto.
+  - destruct (r_fl s); try discriminate. inv_some H; cbn [r_stopped r_stoppers]; auto.
+  - destruct (memb t (akeys (r_stoppers s))); [discriminate|]. inv_some H. unfold set_rstoppers; cbn [r_stopped r_stoppers].
+    intros t0 Ht0. apply alookup_app_inv in Ht0. destruct Ht0 as [Ht0|Ht0]; [eauto|].
+    simpl in Ht0. destruct (Nat.eqb t t0); discriminate.
+  - destruct (alookup t (r_stoppers s)) as [[| |]|] eqn:El; try discriminate.
+    destruct (r_stopped s) eqn:Es; inv_some H; [unfold set_rstoppers|]; cbn [r_stopped r_stoppers]; auto.
+  - destruct (alookup t (r_stoppers s)) as [[| |]|] eqn:El; try discriminate. inv_some H. cbn [r_stopped r_stoppers].
+    intros t0 Ht0. apply alookup_aset_inv in Ht0. destruct Ht0 as [[_ Hd]|Ht0]; [discriminate|eauto].
+Qed.
+
+(* ---- once stopped, quit is closed or the stop() call that set stopped is about to close it ---- *)
+Definition qinv (s : rdeb) : Prop :=
+  (r_quit_closed s = true -> r_stopped s = true)
+  /\ (r_stopped s = true -> r_quit_closed s = true \/ exists t, alookup t (r_stoppers s) = Some RSClose).
+
+Lemma qinv_init : qinv rdeb_init.
+Proof. split; simpl; discriminate. Qed.
+
+Lemma qinv_step s l s' : cinv s -> qinv s -> rstep s l = Some s' -> qinv s'.
+Proof.
+  intros IC [I1 I2] H. unfold qinv. destruct l as [| | |src| | |t|t|t]; cbn [rstep] in H.
+  - destruct (r_stopped s) eqn:Es; inv_some H; cbn [r_stopped r_quit_closed r_stoppers]; rewrite ?Es; auto.
+  - destruct (r_armed s); [|discriminate]. inv_some H; cbn [r_stopped r_quit_closed r_stoppers]; auto.
+  - destruct (r_bc s); inv_some H; cbn [r_stopped r_quit_closed r_stoppers]; auto.
+  - destruct (r_fl s); try discriminate. destruct src.
+    + destruct (r_now s); [|discriminate]. inv_some H; cbn [r_stopped r_quit_closed r_stoppers]; auto.
+    + destruct (r_timerc s); [|discriminate]. inv_some H; cbn [r_stopped r_quit_closed r_stoppers]; auto.
+    + destruct (r_quit_closed s) eqn:Eq; [|discriminate]. inv_some H. unfold set_rfl; cbn [r_stopped r_quit_closed r_stoppers].
+      rewrite ?Eq. auto.
+  - destruct (r_fl s); try discriminate. destruct (r_stopped s) eqn:Es; inv_some H; cbn [r_stopped r_quit_closed r_stoppers].
+    + auto.
+    + split; [intro Hq; specialize (I1 Hq); discriminate|discriminate].
+  - destruct (r_fl s); try discriminate. inv_some H; cbn [r_stopped r_quit_closed r_stoppers]; auto.
+  - destruct (memb t (akeys (r_stoppers s))); [discriminate|]. inv_some H. unfold set_rstoppers; cbn [r_stopped r_quit_closed r_stoppers].
+    split; [assumption|]. intro Hs. destruct (I2 Hs) as [Hq|[t0 Ht0]]; [now left|right]. exists t0. now apply alookup_app_in.
+  - destruct (alookup t (r_stoppers s)) as [[| |]|] eqn:El; try discriminate.
     destruct (r_stopped s) eqn:Es; inv_some H.
-    + unfold set_rstoppers. cbn [r_stopped r_stoppers r_fl r_quit_closed r_now r_timerc r_armed]. rewrite Es.
-      assert (E1 : n_in RSSend (aset t RSDone (r_stoppers s)) = n_in RSSend (r_stoppers s)) by lia.
-      assert (E2 : n_in RSClose (aset t RSDone (r_stoppers s)) = n_in RSClose (r_stoppers s)) by lia.
-      rewrite E1, E2. exact I.
-    + cbn [r_stopped r_stoppers r_fl r_quit_closed r_now r_timerc r_armed].
-      simpl in Hg. rewrite Es in Hg. simpl in Hg. apply Bool.negb_false_iff in Hg. unfold r_calm in Hg.
-      apply andb_true_iff in Hg. destruct Hg as [Hg Hfl]. apply andb_true_iff in Hg. destruct Hg as [Hg Ht].
-      apply andb_true_iff in Hg. destruct Hg as [Hn Ha]. apply Bool.negb_true_iff in Hn, Ha, Ht.
-      destruct I as [I1 [I2 [I3 [I4 I5]]]]. left. repeat split; auto; try lia.
-      destruct (r_fl s) as [|[| |]|w|]; try discriminate; try congruence; [now left|right; eauto].
-  - (* RStopClose *)
-    destruct (alookup t (r_stoppers s)) as [[| | |]|] eqn:El; try discriminate. inv_some H.
-    cbn [r_stopped r_stoppers r_fl r_quit_closed r_now r_timerc r_armed].
-    pose proof (n_in_aset RSSend _ t RSDone RSClose El) as Hd1. unfold ind in Hd1. simpl in Hd1.
-    destruct (r_stopped s).
-    + destruct I as [[_ [I2 _]]|[I1 I2]]; [exfalso; eapply n_in_zero_lookup; eauto|].
-      right. split; [lia|assumption].
-    + destruct I as [_ [I2 _]]. exfalso. eapply n_in_zero_lookup; eauto.
+    + unfold set_rstoppers; cbn [r_stopped r_quit_closed r_stoppers]. rewrite ?Es. split; [assumption|].
+      intro Hs. destruct (I2 Hs) as [Hq|[t0 Ht0]]; [now left|right]. exists t0.
+      rewrite alookup_aset_other; [assumption|]. intro; subst; congruence.
+    + cbn [r_stopped r_quit_closed r_stoppers]. split; [reflexivity|]. intros _. right. exists t. eapply alookup_aset_same; eauto.
+  - destruct (alookup t (r_stoppers s)) as [[| |]|] eqn:El; try discriminate. inv_some H. cbn [r_stopped r_quit_closed r_stoppers].
+    split; [|now left]. intros _. exact (IC t El).
 Qed.
 
-Lemma rinv_run ls : forall s0 s, rinv s0 -> rrun s0 ls = Some s -> ravoids request_races_stop s0 ls = true -> rinv s.
+Lemma cq_run ls : forall s0 s, cinv s0 -> qinv s0 -> rrun s0 ls = Some s -> cinv s /\ qinv s.
 Proof.
-  induction ls as [|l r IH]; simpl; intros s0 s I H Hg; [inversion H; subst; assumption|].
-  destruct (rstep s0 l) eqn:E; [|discriminate]. apply andb_true_iff in Hg. destruct Hg as [Hg1 Hg2].
-  apply Bool.negb_true_iff in Hg1. eapply IH; [eapply rinv_step; eauto|exact H|exact Hg2].
+  induction ls as [|l r IH]; simpl; intros s0 s IC IQ H; [inversion H; subst; auto|].
+  destruct (rstep s0 l) eqn:E; [|discriminate]. eapply IH; [eapply cinv_step; eauto|eapply qinv_step; eauto|exact H].
 Qed.
 
-Lemma lookup_send_pos st t : alookup t st = Some RSSend -> (1 <= n_in RSSend st)%nat.
+(* ---- the flusher returns after stop(): quit gets closed, then whatever the select takes, the
+   flusher sees stopped ---- *)
+Theorem flusher_exits_lemma ls s :
+  rrun rdeb_init ls = Some s -> r_stopped s = true ->
+  (r_quit_closed s = true \/ exists t s1, rstep s (RStopClose t) = Some s1 /\ r_quit_closed s1 = true /\ r_fl s1 = r_fl s)
+  /\ (forall src s1, rstep s (RFlWake src) = Some s1 -> exists s2, rstep s1 RFlLock = Some s2 /\ r_fl s2 = RExited)
+  /\ (r_quit_closed s = true -> r_fl s <> RExited ->
+      exists ls' s', (ls' = [RFlLock] \/ ls' = [RFlWake SQuit; RFlLock] \/ ls' = [RFlDone; RFlWake SQuit; RFlLock])
+        /\ rrun s ls' = Some s' /\ r_fl s' = RExited).
 Proof.
-  intro E. destruct (n_in RSSend st) eqn:En; [|lia]. exfalso. eapply n_in_zero_lookup; eauto.
-Qed.
-
-Theorem refresh_stop_returns_lemma ls s t :
-  rrun rdeb_init ls = Some s -> ravoids request_races_stop rdeb_init ls = true ->
-  alookup t (r_stoppers s) = Some RSSend ->
-  ~ r_stop_stuck s t
-  /\ (forall src t', rstep s (RFlWake src t') <> None -> src = SQuit)
-  /\ exists ls' s', (ls' = [RFlWake SQuit t; RStopClose t] \/ ls' = [RFlDone; RFlWake SQuit t; RStopClose t])
-       /\ rrun s ls' = Some s' /\ alookup t (r_stoppers s') = Some RSDone.
-Proof.
-  intros Hrun Hg El. pose proof (rinv_run ls _ _ rinv_init Hrun Hg) as I. unfold rinv in I.
-  pose proof (lookup_send_pos _ _ El) as Hpos.
-  destruct (r_stopped s) eqn:Es; [|destruct I as [I1 _]; lia].
-  destruct I as [[_ [_ [Hfl [Hn [Ht _]]]]]|[I1 _]]; [|lia].
+  intros Hrun Hs. assert (IC0 : cinv rdeb_init) by (intros t Ht; discriminate).
+  destruct (cq_run _ _ _ IC0 qinv_init Hrun) as [IC [I1 I2]].
   split; [|split].
-  - intros [_ Hex]. destruct Hfl as [Hfl|[w Hfl]]; congruence.
-  - intros src t' Hne. cbn [rstep] in Hne. destruct (r_fl s); try congruence.
-    destruct src; [rewrite Hn in Hne|rewrite Ht in Hne|reflexivity]; congruence.
-  - destruct Hfl as [Hfl|[w Hfl]].
-    + exists [RFlWake SQuit t; RStopClose t]. cbn [rrun rstep]. rewrite Hfl, El.
-      cbn [r_stoppers]. rewrite (alookup_aset_same t RSClose RSSend _ El).
-      eexists. split; [now left|]. split; [reflexivity|]. cbn [r_stoppers].
-      apply (alookup_aset_same t RSDone RSClose). apply (alookup_aset_same t RSClose RSSend _ El).
-    + exists [RFlDone; RFlWake SQuit t; RStopClose t]. cbn [rrun rstep]. rewrite Hfl. cbn [r_fl r_stoppers]. rewrite El.
-      cbn [r_stoppers]. rewrite (alookup_aset_same t RSClose RSSend _ El).
-      eexists. split; [now right|]. split; [reflexivity|]. cbn [r_stoppers].
-      apply (alookup_aset_same t RSDone RSClose). apply (alookup_aset_same t RSClose RSSend _ El).
+  - destruct (I2 Hs) as [Hq|[t Ht]]; [now left|right]. exists t. cbn [rstep]. rewrite Ht. eexists. split; [reflexivity|]. split; reflexivity.
+  - intros src s1 H. cbn [rstep] in H. destruct (r_fl s) eqn:Ef; try discriminate.
+    destruct src.
+    + destruct (r_now s); [|discriminate]. inv_some H. cbn [rstep r_fl r_stopped]. rewrite Hs. eexists. split; reflexivity.
+    + destruct (r_timerc s); [|discriminate]. inv_some H. cbn [rstep r_fl r_stopped]. rewrite Hs. eexists. split; reflexivity.
+    + destruct (r_quit_closed s); [|discriminate]. inv_some H. unfold set_rfl. cbn [rstep r_fl r_stopped]. rewrite Hs. eexists. split; reflexivity.
+  - intros Hq Hne. destruct (r_fl s) as [|src|w|] eqn:Ef; [| | |congruence].
+    + exists [RFlWake SQuit; RFlLock]. cbn [rrun rstep]. rewrite Ef, Hq. unfold set_rfl. cbn [rstep r_fl r_stopped]. rewrite Hs.
+      eexists. split; [tauto|]. split; reflexivity.
+    + exists [RFlLock]. cbn [rrun rstep]. rewrite Ef, Hs. eexists. split; [tauto|]. split; reflexivity.
+    + exists [RFlDone; RFlWake SQuit; RFlLock]. cbn [rrun rstep]. rewrite Ef. cbn [rstep r_fl r_quit_closed]. rewrite Hq.
+      unfold set_rfl. cbn [rstep r_fl r_stopped]. rewrite Hs. eexists. split; [tauto|]. split; reflexivity.
 Qed.
 
-(* ---- nothing is refreshed once stop() has taken effect (no hypothesis) ---- *)
+(* ---- nothing is refreshed once stop() has taken effect ---- *)
 Lemma stopped_step s l s' : r_stopped s = true -> rstep s l = Some s' -> r_stopped s' = true /\ r_calls s' = r_calls s.
 Proof.
-  intros Hs H. destruct l as [| | |src t| | |t|t|t]; cbn [rstep] in H.
-  - rewrite Hs in H. try discriminate; try inv_some H. auto.
-  - destruct (r_armed s); try discriminate; try inv_some H. auto.
-  - destruct (r_bc s); try discriminate; try inv_some H; auto.
+  intros Hs H. destruct l as [| | |src| | |t|t|t]; cbn [rstep] in H.
+  - rewrite Hs in H. inv_some H. auto.
+  - destruct (r_armed s); try discriminate; inv_some H. auto.
+  - destruct (r_bc s); inv_some H; auto.
   - destruct (r_fl s); try discriminate. destruct src.
-    + destruct (r_now s); try discriminate; try inv_some H; auto.
-    + destruct (r_timerc s); try discriminate; try inv_some H; auto.
-    + destruct (alookup t (r_stoppers s)) as [[| | |]|]; try (destruct (r_quit_closed s); try discriminate; try inv_some H; auto); try discriminate; try inv_some H; auto.
-  - destruct (r_fl s); try discriminate. rewrite Hs in H. try discriminate; try inv_some H. auto.
-  - destruct (r_fl s); try discriminate. try discriminate; try inv_some H. auto.
-  - destruct (memb t (akeys (r_stoppers s))); try discriminate; try inv_some H. auto.
-  - destruct (alookup t (r_stoppers s)) as [[| | |]|]; try discriminate. rewrite Hs in H. try discriminate; try inv_some H. auto.
-  - destruct (alookup t (r_stoppers s)) as [[| | |]|]; try discriminate. try discriminate; try inv_some H. auto.
+    + destruct (r_now s); try discriminate; inv_some H; auto.
+    + destruct (r_timerc s); try discriminate; inv_some H; auto.
+    + destruct (r_quit_closed s); try discriminate; inv_some H; auto.
+  - destruct (r_fl s); try discriminate. rewrite Hs in H. inv_some H. auto.
+  - destruct (r_fl s); try discriminate. inv_some H. auto.
+  - destruct (memb t (akeys (r_stoppers s))); try discriminate; inv_some H. auto.
+  - destruct (alookup t (r_stoppers s)) as [[| |]|]; try discriminate. rewrite Hs in H. inv_some H. auto.
+  - destruct (alookup t (r_stoppers s)) as [[| |]|]; try discriminate. inv_some H. auto.
 Qed.
 
 Theorem no_refresh_after_stop_lemma s ls s' : r_stopped s = true -> rrun s ls = Some s' -> r_calls s' = r_calls s.
@@ -181,117 +152,4 @@ Proof.
   revert s. induction ls as [|l r IH]; simpl; intros s Hs H; [inversion H; reflexivity|].
   destruct (rstep s l) eqn:E; [|discriminate]. destruct (stopped_step _ _ _ Hs E) as [H1 H2].
   rewrite (IH _ H1 H). exact H2.
-Qed.
-
-(* ---- a stuck stop() stays stuck ---- *)
-Lemma stuck_step s t l s' : r_stop_stuck s t -> rstep s l = Some s' -> r_stop_stuck s' t.
-Proof.
-  intros [El Hfl] H. unfold r_stop_stuck. destruct l as [| | |src t'| | |t'|t'|t']; cbn [rstep] in H.
-  - destruct (r_stopped s); try discriminate; try inv_some H; auto.
-  - destruct (r_armed s); try discriminate; try inv_some H; auto.
-  - destruct (r_bc s); try discriminate; try inv_some H; auto.
-  - rewrite Hfl in H. discriminate.
-  - rewrite Hfl in H. discriminate.
-  - rewrite Hfl in H. discriminate.
-  - destruct (memb t' (akeys (r_stoppers s))); try discriminate; try inv_some H. unfold set_rstoppers. cbn [r_stoppers r_fl]. split; [|assumption].
-    now apply alookup_app_in.
-  - destruct (alookup t' (r_stoppers s)) as [[| | |]|] eqn:E'; try discriminate.
-    assert (t <> t') by (intro; subst; congruence).
-    destruct (r_stopped s); try discriminate; try inv_some H; unfold set_rstoppers; cbn [r_stoppers r_fl]; split; auto; rewrite alookup_aset_other; auto.
-  - destruct (alookup t' (r_stoppers s)) as [[| | |]|] eqn:E'; try discriminate.
-    assert (t <> t') by (intro; subst; congruence).
-    inv_some H; cbn [r_stoppers r_fl]; split; auto; rewrite alookup_aset_other; auto.
-Qed.
-
-Lemma stuck_forever s t ls s' : r_stop_stuck s t -> rrun s ls = Some s' -> r_stop_stuck s' t.
-Proof.
-  revert s. induction ls as [|l r IH]; simpl; intros s Hs H; [inversion H; subst; assumption|].
-  destruct (rstep s l) eqn:E; [|discriminate]. eapply IH; [eapply stuck_step; eauto|exact H].
-Qed.
-
-(* ---- the only way to a stuck stop(): the flusher exits after a wake-up that was not quit ---- *)
-Definition ginv (s : rdeb) : Prop :=
-  if r_stopped s
-  then (n_in RSSend (r_stoppers s) = 1%nat /\ n_in RSClose (r_stoppers s) = 0%nat /\ r_quit_closed s = false
-        /\ r_fl s <> RExited /\ r_fl s <> RWoke SQuit)
-       \/ (n_in RSSend (r_stoppers s) = 0%nat /\ (r_fl s = RWoke SQuit \/ r_fl s = RExited))
-  else n_in RSSend (r_stoppers s) = 0%nat /\ n_in RSClose (r_stoppers s) = 0%nat /\ r_quit_closed s = false
-       /\ r_fl s <> RExited /\ r_fl s <> RWoke SQuit.
-
-Lemma ginv_init : ginv rdeb_init.
-Proof. unfold ginv. simpl. repeat split; discriminate. Qed.
-
-Lemma ginv_step s l s' : ginv s -> flusher_misses_quit s l = false -> rstep s l = Some s' -> ginv s'.
-Proof.
-  intros I Hg H. unfold ginv in *.
-  destruct l as [| | |src t| | |t|t|t]; cbn [rstep] in H.
-  - destruct (r_stopped s) eqn:Es; inv_some H; [now rewrite Es|]. cbn [r_stopped r_stoppers r_fl r_quit_closed]. rewrite ?Es. exact I.
-  - destruct (r_armed s) eqn:Ea; [|discriminate]. inv_some H. cbn [r_stopped r_stoppers r_fl r_quit_closed]. exact I.
-  - destruct (r_bc s); inv_some H; cbn [r_stopped r_stoppers r_fl r_quit_closed]; exact I.
-  - destruct (r_fl s) eqn:Ef; try discriminate.
-    destruct src.
-    + destruct (r_now s) eqn:En; [|discriminate]. inv_some H. cbn [r_stopped r_stoppers r_fl r_quit_closed].
-      destruct (r_stopped s).
-      * destruct I as [[I1 [I2 [I3 _]]]|[_ [I|I]]]; try congruence. left. repeat split; auto; discriminate.
-      * destruct I as [I1 [I2 [I3 _]]]. repeat split; auto; discriminate.
-    + destruct (r_timerc s) eqn:En; [|discriminate]. inv_some H. cbn [r_stopped r_stoppers r_fl r_quit_closed].
-      destruct (r_stopped s).
-      * destruct I as [[I1 [I2 [I3 _]]]|[_ [I|I]]]; try congruence. left. repeat split; auto; discriminate.
-      * destruct I as [I1 [I2 [I3 _]]]. repeat split; auto; discriminate.
-    + destruct (alookup t (r_stoppers s)) as [[| | |]|] eqn:El.
-      2:{ inv_some H. cbn [r_stopped r_stoppers r_fl r_quit_closed].
-          destruct (r_stopped s).
-          - destruct I as [[I1 [I2 _]]|[I1 _]].
-            + right. split; [|now left].
-              pose proof (n_in_aset RSSend _ t RSClose RSSend El) as Hn. unfold ind in Hn. simpl in Hn. lia.
-            + exfalso. eapply n_in_zero_lookup; eauto.
-          - destruct I as [I1 _]. exfalso. eapply n_in_zero_lookup; eauto. }
-      all: destruct (r_quit_closed s) eqn:Eq; [|discriminate]; inv_some H; unfold set_rfl; cbn [r_stopped r_stoppers r_fl r_quit_closed];
-        destruct (r_stopped s); [destruct I as [[_ [_ [Hq _]]]|[I1 [I|I]]]; try congruence | destruct I as [_ [_ [Hq _]]]; congruence].
-  - destruct (r_fl s) as [|src|w|] eqn:Ef; try discriminate.
-    destruct (r_stopped s) eqn:Es; inv_some H; cbn [r_stopped r_stoppers r_fl r_quit_closed].
-    + destruct I as [[_ [_ [_ [_ I5]]]]|[I1 _]].
-      * exfalso. simpl in Hg. rewrite Es, Ef in Hg. destruct src; try discriminate. congruence.
-      * right. split; [assumption|now right].
-    + destruct I as [I1 [I2 [I3 _]]]. repeat split; auto; discriminate.
-  - destruct (r_fl s) as [|src|w|] eqn:Ef; try discriminate. inv_some H. cbn [r_stopped r_stoppers r_fl r_quit_closed].
-    destruct (r_stopped s).
-    + destruct I as [[I1 [I2 [I3 _]]]|[_ [I|I]]]; try congruence. left. repeat split; auto; discriminate.
-    + destruct I as [I1 [I2 [I3 _]]]. repeat split; auto; discriminate.
-  - destruct (memb t (akeys (r_stoppers s))); [discriminate|]. inv_some H. unfold set_rstoppers. cbn [r_stopped r_stoppers r_fl r_quit_closed].
-    assert (H1 : n_in RSSend (r_stoppers s ++ [(t, RS0)]) = n_in RSSend (r_stoppers s)).
-    { pose proof (n_in_snoc RSSend (r_stoppers s) t RS0) as Hn. unfold ind in Hn. simpl in Hn. lia. }
-    assert (H2 : n_in RSClose (r_stoppers s ++ [(t, RS0)]) = n_in RSClose (r_stoppers s)).
-    { pose proof (n_in_snoc RSClose (r_stoppers s) t RS0) as Hn. unfold ind in Hn. simpl in Hn. lia. }
-    rewrite H1, H2. exact I.
-  - destruct (alookup t (r_stoppers s)) as [[| | |]|] eqn:El; try discriminate.
-    pose proof (n_in_aset RSSend _ t RSDone RS0 El) as Hd1. pose proof (n_in_aset RSClose _ t RSDone RS0 El) as Hd2.
-    pose proof (n_in_aset RSSend _ t RSSend RS0 El) as Hs1. pose proof (n_in_aset RSClose _ t RSSend RS0 El) as Hs2.
-    unfold ind in *. simpl in Hd1, Hd2, Hs1, Hs2.
-    destruct (r_stopped s) eqn:Es; inv_some H.
-    + unfold set_rstoppers. cbn [r_stopped r_stoppers r_fl r_quit_closed]. rewrite ?Es.
-      assert (E1 : n_in RSSend (aset t RSDone (r_stoppers s)) = n_in RSSend (r_stoppers s)) by lia.
-      assert (E2 : n_in RSClose (aset t RSDone (r_stoppers s)) = n_in RSClose (r_stoppers s)) by lia.
-      rewrite E1, E2. exact I.
-    + cbn [r_stopped r_stoppers r_fl r_quit_closed].
-      destruct I as [I1 [I2 [I3 [I4 I5]]]]. left. repeat split; auto; lia.
-  - destruct (alookup t (r_stoppers s)) as [[| | |]|] eqn:El; try discriminate. inv_some H.
-    cbn [r_stopped r_stoppers r_fl r_quit_closed].
-    pose proof (n_in_aset RSSend _ t RSDone RSClose El) as Hd1. unfold ind in Hd1. simpl in Hd1.
-    destruct (r_stopped s).
-    + destruct I as [[_ [I2 _]]|[I1 I2]]; [exfalso; eapply n_in_zero_lookup; eauto|].
-      right. split; [lia|assumption].
-    + destruct I as [_ [I2 _]]. exfalso. eapply n_in_zero_lookup; eauto.
-Qed.
-
-Theorem stuck_only_if_quit_missed_lemma ls s t :
-  rrun rdeb_init ls = Some s -> ravoids flusher_misses_quit rdeb_init ls = true -> ~ r_stop_stuck s t.
-Proof.
-  assert (G : forall ls s0 s, ginv s0 -> rrun s0 ls = Some s -> ravoids flusher_misses_quit s0 ls = true -> ginv s).
-  { clear. intro ls. induction ls as [|l r IH]; simpl; intros s0 s I H Hg; [inversion H; subst; assumption|].
-    destruct (rstep s0 l) eqn:E; [|discriminate]. apply andb_true_iff in Hg. destruct Hg as [Hg1 Hg2].
-    apply Bool.negb_true_iff in Hg1. eapply IH; [eapply ginv_step; eauto|exact H|exact Hg2]. }
-  intros Hrun Hg [El Hex]. pose proof (G _ _ _ ginv_init Hrun Hg) as I. unfold ginv in I.
-  pose proof (lookup_send_pos _ _ El) as Hpos.
-  destruct (r_stopped s); [destruct I as [[_ [_ [_ [I4 _]]]]|[I1 _]]; [congruence|lia]|destruct I as [I1 _]; lia].
 Qed.
